@@ -16,7 +16,7 @@ import json
 
 from pydra.compose import workflow
 
-from vp.terms import F, L
+from vp.terms import F, FT, L
 
 
 def to_py(tree):
@@ -46,6 +46,8 @@ def build(spec, wfin):
         if kind == "F":
             task = F(tag=nd.get("tag", nd["name"]), fail=bool(nd.get("fail")), gate=bool(nd.get("gate")),
                      failtok=nd.get("failtok", ""), **kw)
+        elif kind == "FT":
+            task = FT(tag=nd.get("tag", nd["name"]), **kw)
         elif kind == "L":
             task = L(tag=nd["name"], n=nd.get("n", 2), **kw)
         else:
@@ -57,6 +59,9 @@ def build(spec, wfin):
         if nd.get("comb"):
             task = task.combine(nd["comb"])
         built[nd["name"]] = workflow.add(task, name=nd["name"])
+    # back-assignments: re-point an already added node's input at a (possibly later) node's output
+    for tgt, field, src in spec.get("back", []):
+        setattr(workflow.this()[tgt].inputs, field, built[src].out)
     return built
 
 
